@@ -16,7 +16,17 @@ class Atom:
     __slots__ = ("kind", "path", "args", "src")
 
     def __init__(self, kind, path, args=(), src=None):
-        self.kind, self.path, self.args, self.src = kind, tuple(path), tuple(args), src
+        args = tuple(args)
+        # canonical forms: len != 0 / len > 0 -> len >= 1 ; x > k -> x >= k+1 ; x < k -> x <= k-1
+        if kind in ("len", "range") and len(args) == 2 and isinstance(args[1], int):
+            op, k = args
+            if kind == "len" and op == "!=" and k == 0:
+                args = (">=", 1)
+            elif op == ">":
+                args = (">=", k + 1)
+            elif op == "<":
+                args = ("<=", k - 1)
+        self.kind, self.path, self.args, self.src = kind, tuple(path), args, src
 
     def key(self):
         return (self.kind, self.path, self.args)
@@ -473,6 +483,14 @@ class AtomExtractor:
         for f in facts:
             if f.kind == "cmp" and f.op == ">=" and isinstance(f.left, ast.Name):
                 ds = defs_of(A, fn, f.left.id)
+                if len(ds) > 1:
+                    # keep the definition(s) that dominate this point; the closest one reaches it
+                    g = A.cfg(fn, pc)
+                    dom = [d for d in ds if any(g.dominates(x, cnode) for x in g.nodes_of(d))]
+                    if dom:
+                        doms = g.dominators(cnode)
+                        dom.sort(key=lambda d: min(doms.index(x) for x in g.nodes_of(d) if x in doms))
+                        ds = dom[:1]
                 ok, k = try_fold(self.P, f.right, fn, pc)
                 if len(ds) == 1 and isinstance(ds[0].value, ast.Call) and ok and k == 0:
                     vals = self._call_values(ds[0].value, fn, pc, env, 0, negative_only=False)
